@@ -607,7 +607,13 @@ func (x *Exec) cutLoop(s *State, ord int, label string, spec *LoopSpec, pos toke
 		f.iterStarts[ord] = b.clone()
 		savedDepth := x.blockDepth
 		x.blockDepth = 0
+		if len(x.frames) == 1 {
+			x.loopOrds = append(x.loopOrds, ord)
+		}
 		bouts := x.execBlockM([]*State{b}, body.List)
+		if len(x.frames) == 1 {
+			x.loopOrds = x.loopOrds[:len(x.loopOrds)-1]
+		}
 		x.blockDepth = savedDepth
 		ends := append([]*State{}, lc.conts...)
 		ends = append(ends, bouts...)
@@ -820,7 +826,13 @@ func (x *Exec) rangeLoop(s *State, n *ast.RangeStmt, ord int, label string, spec
 	f.iterStarts[ord] = b.clone()
 	savedDepth := x.blockDepth
 	x.blockDepth = 0
+	if len(x.frames) == 1 {
+		x.loopOrds = append(x.loopOrds, ord)
+	}
 	bouts := x.execBlockM([]*State{b}, n.Body.List)
+	if len(x.frames) == 1 {
+		x.loopOrds = x.loopOrds[:len(x.loopOrds)-1]
+	}
 	x.blockDepth = savedDepth
 	ends := append([]*State{}, lc.conts...)
 	ends = append(ends, bouts...)
